@@ -388,6 +388,7 @@ func run(id string, cfg config, tier string, seed int64, work string, replayPath
 	distinct := map[uint64]struct{}{}
 	inconclusive := ""
 	var replayFiles []string
+	hangFiles := map[string]bool{}
 	for i, r := range results {
 		if r.stats == nil {
 			inconclusive = fmt.Sprintf("shard %d wrote no statistics (exit %d, %v):\n%s", i, r.exit, r.err, tail(r.out, 40))
@@ -431,6 +432,10 @@ func run(id string, cfg config, tier string, seed int64, work string, replayPath
 		merged.Samples = append(merged.Samples, st.Samples[:n]...)
 		for _, h := range r.hashes {
 			distinct[h] = struct{}{}
+		}
+		if st.Hang != nil && st.Violation == nil {
+			st.Violation = st.Hang
+			hangFiles[fmt.Sprintf("%s-%s-seed%d-shard%d.json", id, tier, seed, i)] = true
 		}
 		if st.Violation != nil {
 			rf := core.ReplayFile{Property: st.Violation.Check, Message: st.Violation.Message, Case: st.Violation.Case}
